@@ -1,9 +1,15 @@
 use crate::GDErrorKind;
 use std::error::Error;
 use std::fmt::Formatter;
+#[cfg(not(gamedig_verif))]
 use std::{backtrace, fmt};
+#[cfg(gamedig_verif)]
+use {crate::verif_hook::backtrace, std::fmt};
 
+#[cfg(not(gamedig_verif))]
 pub(crate) type ErrorSource = Box<dyn Error + 'static + Send + Sync>;
+#[cfg(gamedig_verif)]
+pub(crate) use crate::verif_hook::ErrorSource;
 
 /// The GameDig error type.
 ///
@@ -53,6 +59,10 @@ impl PartialEq for GDError {
     fn eq(&self, other: &Self) -> bool { self.kind == other.kind }
 }
 
+#[cfg(gamedig_verif)]
+impl Error for GDError {}
+
+#[cfg(not(gamedig_verif))]
 impl Error for GDError {
     fn source(&self) -> Option<&(dyn Error + 'static)> { self.source.as_ref().map(|err| Box::as_ref(err) as _) }
 }
